@@ -3,13 +3,11 @@ CONSTANTS
   Moons = {"m1", "m2", "m3"}
   NVals = 2
   MaxSteps = 14
-  AllowReAdd = FALSE
-  MaxSlots = 3
+  AllowReAdd = TRUE
+  MaxSlots = 5
 INVARIANT TypeOK
 INVARIANT StorageAligned
 INVARIANT TablesPointHome
-INVARIANT NoDuplicates
-INVARIANT LookupAgree
 INVARIANT RaiserAdded
 INVARIANT NothingForStrangers
 PROPERTY IndexStable
